@@ -345,6 +345,28 @@ def run_rw(case):
                 pvals.append(bs.Bits(bin=c) if t['name'] == 'bits' else codecs.decode(t['name'], c))
         skip = any(isinstance(v, float) and math.isnan(v) for v in pvals)
         if not skip:
+            # the same values passed in the three ways pack offers: positional, keyword value ('name:n=kw') and a bare keyword token holding the bits
+            parts, pos_vals, kw = [], [], {}
+            vi = 0
+            for i, t in enumerate(toks):
+                if t['name'] == 'pad':
+                    parts.append(tok_text(t))
+                    continue
+                v = pvals[vi]
+                vi += 1
+                style = (n + 3 * i + len(toks)) % 3 if case.get('kwstyle', True) else 0
+                if style == 1:
+                    parts.append(f'{tok_text(t)}=v{i}')
+                    kw[f'v{i}'] = v
+                elif style == 2:
+                    parts.append(f'b{i}')
+                    kw[f'b{i}'] = bs.Bits(bin=encs[i])
+                else:
+                    parts.append(tok_text(t))
+                    pos_vals.append(v)
+            res2 = attempt(bs.pack, ', '.join(parts), *pos_vals, **kw)
+            require(not is_raised(res2) and res2.bin == ''.join(reversed(encs)), 'lsb0 pack with keyword values / bare keyword tokens must place the token encodings in reversed order like the positional form',
+                    got=res2 if is_raised(res2) else res2.bin[:80], expected=''.join(reversed(encs))[:80], fmt=', '.join(parts))
             fmt = ', '.join(tok_text(t) for t in toks)
             res = attempt(bs.pack, fmt, *pvals)
             expbits = ''.join(reversed(encs))
